@@ -472,7 +472,10 @@ class Interp:
                         S.mem[(view[0], (("of",),))] = a
                         return ("ref", view)
                     return a
-                return set_ty(("cast?", to, a), to) if False else a if ck.startswith("PointerCoercion") else set_ty(("fresh", self.site()), to)
+                # pointer-to-pointer casts and transmutes keep the pointer's identity; pointer-to-integer is opaque
+                if rv["to"].get("k") in ("ptr", "ref", "adt"):
+                    return a
+                return set_ty(("fresh", self.site()), to)
             return set_ty(("fcast", to, a), to)
         if k == "discr":
             p = Place(rv["place"])
@@ -858,6 +861,7 @@ class Interp:
             absint.WRITE_LOG = saved
 
     def _walk(self, visitor, collect):
+        CUR_BODY[0] = self.body
         for bi in self.body.rpo:
             S0 = self.entry_states.get(bi)
             if S0 is None:
@@ -941,10 +945,17 @@ def stable(sv, depth=0):
     return h
 
 
+CUR_BODY = [None]
+
+
 def stable_loc(loc, depth=0):
     root, proj = loc
     if root[0] == "L":
-        base = "_%d" % root[1]
+        b = CUR_BODY[0]
+        nm = None
+        if b is not None and root[1] < len(b.locals):
+            nm = b.locals[root[1]]["name"] or ("tmp:" + b.locals[root[1]]["t"]["s"])
+        base = nm if nm else "_%d" % root[1]
     elif root[0] == "P":
         base = "*" + stable(root[1], depth + 1)
     else:
